@@ -58,7 +58,7 @@ static int runProc(const std::vector<std::string> &argv, const std::string &cwd,
 struct Item { std::string family, src; bool isAsm; std::vector<std::string> inputs; };
 
 int main(int argc, char **argv) {
-  ctx = parse_args("C06", argc, argv, 240, 1700);
+  ctx = parse_args("C06", argc, argv, 400, 1700);
   Report rep; rep.ctx = ctx; bool th = ctx.thorough();
   xgen::Corpus C; C.build(false);
   std::vector<Item> items;
@@ -160,7 +160,7 @@ int main(int argc, char **argv) {
         st.outcome(mix(fnv(hs.out), hs.rv));
         if (input.size()) st.add("pairs_with_input");
         // process level on a stride of the pairs
-        if (cli && k == 0 && (i % procEvery == 0 || i < 40) && steps < 20000000) {
+        if (cli && k == 0 && (i % procEvery == 0 || i < shipped) && steps < 20000000) {
           spit(dir + "/in.txt", input);
           std::string o1, o2;
           // each executable writes its simout<n> files into the working directory: collect (and remove) them after each run
